@@ -56,6 +56,8 @@ def gen_workload(tape, *, max_funcs=5, max_size=3, allow_gen=True, allow_tuple=T
         inputs[name] = {"axes": axes, "kind": kind, "base": 100 * (len(inputs) + 1)}
         if kind == "list" and tape.coin(0.1, "list-of-arrays"):
             inputs[name]["elements"] = "arrays"
+        elif kind == "list" and tape.coin(0.1, "range-input"):
+            inputs[name]["elements"] = "range"  # the mapped input is a range object
         arrays[name] = tuple(axes)
         return name
 
@@ -120,6 +122,8 @@ def gen_workload(tape, *, max_funcs=5, max_size=3, allow_gen=True, allow_tuple=T
             fd["result_like"] = True  # the value has a .result() method of its own
         elif n_out == 1 and kind != "gen" and tape.coin(0.08, "data-like"):
             fd["data_like"] = True  # the value has _data / _mask attributes of its own
+        elif n_out == 1 and kind != "gen" and tape.coin(0.08, "await-like"):
+            fd["data_like"] = "await"  # the value is awaitable
         # extra bound / default parameters
         if allow_defaults and tape.coin(0.15, "bound"):
             b = f"b{counters['b']}"
@@ -170,6 +174,8 @@ def gen_workload(tape, *, max_funcs=5, max_size=3, allow_gen=True, allow_tuple=T
                     pos = tape.choose(len(out_axes) + 1, "internal-pos")
                     out_axes.insert(pos, internal)
                     fd["out_shape"] = [idx_size[internal]]
+                    if tape.coin(0.3, "shape-as-int"):
+                        fd["shape_int"] = True  # the size of the generated axis is given as a bare int, not a 1-tuple
             if out_axes and (in_specs or internal):
                 lhs = ", ".join(in_specs) if in_specs else "..."
                 rhs = ", ".join(f"{o}[{', '.join(out_axes)}]" for o in outs)
@@ -228,6 +234,8 @@ def _array_value(name, d, shape):
     if d["kind"] == "list" and d.get("elements") == "arrays":
         # a plain list of NumPy arrays with the same leading dimension and different widths (images of equal height)
         return [d["base"] + np.arange(2 * (i + 1)).reshape(2, i + 1) for i in range(n)]
+    if d["kind"] == "list" and d.get("elements") == "range":
+        return range(d["base"], d["base"] + n)
     if d["kind"] == "list":
         return [f"{name}.{i}" for i in range(n)]
     return (d["base"] + np.arange(n)).reshape(shape)
@@ -320,7 +328,7 @@ def internal_shapes(w):
     for fd in w["functions"]:
         if fd.get("out_shape"):
             for o in fd["outputs"]:
-                r[o] = tuple(fd["out_shape"])
+                r[o] = fd["out_shape"][0] if fd.get("shape_int") and len(fd["out_shape"]) == 1 else tuple(fd["out_shape"])
     return r
 
 
@@ -337,11 +345,11 @@ def build_pipeline(w, *, cached=(), tags=None, **pipeline_kwargs):
                 outer={v: k for k, v in inner.items()}, dict_out=fd["outputs"] if fd.get("dict_out") else None,
                 result_like=bool(fd.get("result_like")) and not fd.get("out_shape") and not fd.get("none_mod"),
                 public_name=fd.get("public_name"),
-                data_like=bool(fd.get("data_like")) and not fd.get("out_shape") and not fd.get("none_mod"))
+                data_like=fd.get("data_like") if not fd.get("out_shape") and not fd.get("none_mod") else False)
         out = fd["outputs"][0] if len(fd["outputs"]) == 1 else tuple(fd["outputs"])
         kw = {}
         if fd.get("out_shape") and w.get("internal_via", "pipefunc") in ("pipefunc", "both"):
-            kw["internal_shape"] = tuple(fd["out_shape"])
+            kw["internal_shape"] = fd["out_shape"][0] if fd.get("shape_int") and len(fd["out_shape"]) == 1 else tuple(fd["out_shape"])
         if inner:
             kw["renames"] = {v: k for k, v in inner.items()}
         if fd.get("dict_out"):
@@ -393,7 +401,7 @@ def describe(w):
              **({"profile": True} if fd.get("profile") else {}),
              **({"public_name": fd["public_name"]} if fd.get("public_name") else {}),
              **({"result_like": True} if fd.get("result_like") else {}),
-             **({"data_like": True} if fd.get("data_like") else {}),
+             **({"data_like": fd["data_like"]} if fd.get("data_like") else {}),
              **({"bound": fd["bound"]} if fd.get("bound") else {}),
              **({"defaults": {**fd["defaults"], **fd["sig_defaults"]}} if fd.get("defaults") or fd.get("sig_defaults") else {})}
             for fd in w["functions"]
